@@ -537,3 +537,11 @@ Print Assumptions C15_lookup_goes_on.
 Theorem C15_nameless_example : nameless_example.
 Proof. exact nameless_example_holds. Qed.
 Print Assumptions C15_nameless_example.
+
+(* 9. bridge chains (round 5).  Every name is looked up in the GIVEN mappings (named_ref ... M with M the input, see
+   C15_add_specialized_exact / C15_bridge_gets_name), never in what the loop has written so far.  Pinned: A = get()Object
+   (nameA) -> B = get()Number (nameB) -> C = get()Integer in one class: B receives nameA, C receives nameB, in both
+   class-file orders of A and B *)
+Theorem C15_chain_example : chain_example.
+Proof. exact chain_example_holds. Qed.
+Print Assumptions C15_chain_example.
